@@ -1,10 +1,20 @@
-"""compare the names registered by src/python/*.cpp with the attributes of the akext classes"""
+#!/usr/bin/env python3
+"""API-surface check of akext against the binding sources.
+
+Parses src/python/*.cpp of $VERIF_REPO for every name registered with .def/.def_property*/.def_static/
+.def_buffer/py::pickle and for the py::arg(...) names and defaults, and compares them with the attributes
+and the signatures of the classes served as awkward._ext.  Exit status 0 = nothing missing, no difference.
+
+    VERIF_REPO=/repo /venv/bin/python /verif/selftest/akext_apicheck.py
+"""
 import re, sys, os
-sys.path.insert(0, "/verif")
+HERE = os.path.dirname(os.path.abspath(__file__))
+sys.path.insert(0, os.path.dirname(HERE))
 from vlib import lanep
+import vbuild
 ak = lanep.load("plain")
 ext = ak._ext
-repo = os.environ.get("VERIF_REPO", "/repo")
+repo = vbuild.repo_dir()
 src = {}
 for f in ["content.cpp", "index.cpp", "identities.cpp", "types.cpp", "forms.cpp", "virtual.cpp", "partition.cpp", "forth.cpp", "io.cpp"]:
     src[f] = open(os.path.join(repo, "src/python", f)).read()
@@ -84,7 +94,8 @@ for pyname, n, missing in checks:
 print("classes:", len(checks), "class attributes checked:", total)
 mod = re.findall(r'make_\w+(?:<[^>]*>)?\(m(?:,\s*"(\w+)")?\)', open(os.path.join(repo, "src/python/_ext.cpp")).read())
 names = [x for x in mod if x] + ["uproot_issue_90", "_slice_tostring", "__version__"]
-print("module names missing:", [n for n in names if not hasattr(ext, n)], "of", len(names))
+missing_module_names = [n for n in names if not hasattr(ext, n)]
+print("module names missing:", missing_module_names, "of", len(names))
 
 # ---- keyword names and defaults
 import inspect
@@ -159,3 +170,5 @@ check_sig("ArrayCache", func_body(src["virtual.cpp"], "make_PyArrayCache"))
 check_sig("IrregularlyPartitionedArray", func_body(src["partition.cpp"], "make_IrregularlyPartitionedArray"))
 check_sig("ForthMachine64", func_body(src["forth.cpp"], "make_ForthMachineOf"))
 print("signature differences:", problems)
+missing_attrs = sum(len(m) for _, _, m in checks)
+sys.exit(1 if (problems or missing_attrs or missing_module_names) else 0)
